@@ -5,6 +5,9 @@
 From Tx Require Import Lib.Base Lib.Sexp.
 From Tx Require Model.OpsC18 Model.OpsC01 Model.OpsSpec.
 From Tx Require Model.OpsC16.
+From Tx Require Model.OpsC03.
+From Tx Require Model.OpsC08.
+From Tx Require Model.OpsC15.
 Local Open Scope Z_scope.
 
 Definition run_op (s : sexp) : sexp :=
@@ -13,8 +16,11 @@ Definition run_op (s : sexp) : sexp :=
       match op with
       | 1 => OpsC01.op args
       | 2 => OpsSpec.op args
+      | 3 => OpsC03.op args
       | 18 => OpsC18.op args
       | 16 => OpsC16.op args
+      | 8 => OpsC08.op args
+      | 15 => OpsC15.op args
       | _ => bad
       end
   | _ => bad
